@@ -233,12 +233,13 @@ Spec == Init /\ [][Next]_vars
 \* excludes it (MC_Swarm_conn2.cfg checks the safety properties of those instances).
 MaxNP == CHOOSE n \in NPs : \A m \in NPs : m <= n
 Fair == /\ \A a \in Agents : WF_vars(Join(a)) /\ WF_vars(Notice(a))
-        /\ \A p, q \in Peers : WF_vars(CloseEnd(p, q))
-        /\ \A a \in Agents, p \in Peers : WF_vars(\E i \in Pieces : Request(a, p, i))
-        /\ \A a \in Agents, p \in Peers : WF_vars(\E i \in Pieces : Serve(p, a, i))
-        /\ \A a \in Agents, p \in Peers, i \in 0..(MaxNP - 1) :
-              /\ WF_vars(\E m \in net : m.from = p /\ m.piece = i /\ StartWrite(a, m))
-              /\ WF_vars(\E w \in writing[a] : w.from = p /\ w.piece = i /\ EndWrite(a, w))
+        /\ \A p \in Peers : \A q \in Peers \ {p} : WF_vars(CloseEnd(p, q))
+        /\ \A a \in Agents : \A p \in Peers \ {a} :
+              /\ WF_vars(\E i \in Pieces : Request(a, p, i))
+              /\ WF_vars(\E i \in Pieces : Serve(p, a, i))
+              /\ \A i \in 0..(MaxNP - 1) :
+                    /\ WF_vars(\E m \in net : m.from = p /\ m.piece = i /\ StartWrite(a, m))
+                    /\ WF_vars(\E w \in writing[a] : w.from = p /\ w.piece = i /\ EndWrite(a, w))
         /\ \A a \in Agents, s \in Seeders : SF_vars(Open(a, s))
 FairSpec == Spec /\ Fair
 
